@@ -15,7 +15,8 @@ against definitions written with plain ints / bit strings (verif/ref/c18_defs.py
 from __future__ import annotations
 
 import itertools
-import time
+import os
+import re
 
 from ..core import Run, ToolError, pmap
 from ..gen import c18_cases as G
@@ -487,16 +488,23 @@ def build_tasks(insts, py_cap, max_per_entity=40, py_budget=25_000):
 # ---------------------------------------------------------------------------------------------
 def main(run: Run):
     insts = G.instances(run.thorough)
-    py_cap = 12 if run.thorough else 10
-    tasks = build_tasks(insts, py_cap)
+    py_cap = 13 if run.thorough else 10
     cfgs = list(crc_configs(run.thorough))
+    flt = os.environ.get("VERIF_C18_FILTER")
+    if flt:
+        # development aid only (restrict to instance / crc keys matching a regex); never claims completeness
+        insts = [i for i in insts if re.search(flt, i["key"])]
+        cfgs = [c for c in cfgs if re.search(flt, crc_key(c))]
+        run.capped = True
+        run.note(f"restricted by VERIF_C18_FILTER={flt!r}")
+    tasks = build_tasks(insts, py_cap)
     for i in range(0, len(cfgs), 8):
         tasks.append({"kind": "crc", "cfgs": cfgs[i:i + 8], "cost": 20_000})
     tasks.sort(key=lambda t: -t["cost"])
     by_key = {it["key"]: it for it in insts}
     run.count("instances_generated", len(insts))
     run.count("crc_configs", len(cfgs))
-    run.cmax("max_input_bits", max(G.total_bits(i) for i in insts))
+    run.cmax("max_input_bits", max([G.total_bits(i) for i in insts] or [0]))
     helpers_seen = set()
     rejected_notes = {}
     sampled = set()
@@ -566,9 +574,9 @@ def main(run: Run):
         run.tool_error(f"vacuous: helpers never accepted at any level: {missing}")
     if c.get("instances_hw_ok", 0) * 10 < len(insts) * 9:
         run.tool_error(f"vacuous: only {c.get('instances_hw_ok', 0)} of {len(insts)} instances accepted by the compiler")
-    if c.get("evals_py", 0) < 1000 or c.get("evals_hw", 0) < 1000:
+    if not flt and (c.get("evals_py", 0) < 1000 or c.get("evals_hw", 0) < 1000):
         run.tool_error("vacuous: fewer than 1000 evaluations at one of the levels")
-    if c.get("crc_ok", 0) + c.get("crc_violation", 0) < len(cfgs) * 0.9:
+    if cfgs and c.get("crc_ok", 0) + c.get("crc_violation", 0) < len(cfgs) * 0.9:
         run.tool_error("vacuous: most CRC wrappers rejected")
     run.assume("vsim (own VHDL-2008 subset simulator) implements IEEE 1076/numeric_std semantics")
     run.assume("reference = verif/ref/c18_defs.py, written from the .pyi docstrings with ints/bit strings; inputs for which the "
